@@ -103,7 +103,11 @@ fn roundtrip(machine: ZXMachine, fresh_receiver: bool) {
     let is48 = machine == ZXMachine::Sinclair48K;
     let mut e = Emulator::<VHost>::new(settings(machine, false, false, false), VContext).ok().unwrap();
     // ---- arbitrary machine state at save time
-    let v: VRegs = kani::any();
+    // SP is fixed: save/load depend on it only through push_pc_to_stack / pop_pc_from_stack, whose
+    // behaviour for every SP is covered by the K-z80 step groups (PUSH/RET); a symbolic SP makes
+    // the 48 KiB RAM writes symbolic and the run infeasible (measured: > 25 min)
+    let mut v: VRegs = kani::any();
+    v.sp = 0x8000;
     let im: u8 = kani::any();
     kani::assume(im < 3);
     e.verif_cpu().regs.verif_set(&v);
@@ -115,19 +119,12 @@ fn roundtrip(machine: ZXMachine, fresh_receiver: bool) {
     if !is48 {
         e.verif_ctl().write_7ffd(latch);
     }
-    if is48 {
-        // the format keeps PC on the stack: the two bytes below SP must be RAM
-        kani::assume(v.sp >= 0x4002);
-    }
     let pages: u8 = if is48 { 3 } else { 8 };
     // bank markers: first byte of bank k is k+1 (the 48K stack bytes are kept away from them)
     let mut k = 0u8;
     while k < pages {
         e.verif_ctl().memory.ram_page_data_mut(k)[0] = k + 1;
         k += 1;
-    }
-    if is48 {
-        kani::assume(v.sp & 0x3FFF != 1 && v.sp & 0x3FFF != 2);
     }
 
     // ---- save
@@ -255,8 +252,8 @@ fn sna_probe_new48() {
 #[kani::stub(crate::zx::controller::ZXController::refresh_memory_dependent_devices, refresh_stub)]
 fn sna_probe_save48() {
     let mut e = Emulator::<VHost>::new(settings(ZXMachine::Sinclair48K, false, false, false), VContext).ok().unwrap();
-    let v: VRegs = kani::any();
-    kani::assume(v.sp >= 0x4002);
+    let mut v: VRegs = kani::any();
+    v.sp = 0x8000;
     e.verif_cpu().regs.verif_set(&v);
     let mut file = VFile::new();
     let r = e.save_snapshot(SnapshotRecorder::Sna(&mut file));
